@@ -305,10 +305,17 @@ Proof.
   (* final size *)
   assert (Hfin : last_size c pre = match length pre with O => 0 | S k' => size_of_round c pre k' end) by reflexivity.
   rewrite <- Hfin, N.eqb_refl. cbn [andb].
-  (* per-input counts *)
-  assert (Hcnt : (if c_input_counts c then (length (st_counts (store_of c pre)) =? length (concat (kept_of c pre)))%nat else true) = true).
-  { destruct (c_input_counts c) eqn:Ei; [|reflexivity]. unfold store_of. rewrite record_one_counts, Ei.
-    cbn [store_empty st_counts length]. apply Nat.eqb_refl. }
+  (* per-input counts, every kind *)
+  assert (Hcnt : forallb (fun k => list_eqb (qget k (st_counts (store_of c pre)))
+                     (if qget k (c_input_counts c) then expected_counts k (last_size c pre) (kept_of c pre) else []))
+                   all_kinds = true).
+  { apply forallb_forall. intros kd _. unfold store_of. rewrite record_one_counts.
+    cbn [store_empty st_counts]. replace (qget kd (qconst (@nil N))) with (@nil N) by (destruct kd; reflexivity).
+    cbn [app]. unfold expected_counts.
+    destruct (qget kd (c_input_counts c)); [|apply list_eqb_refl].
+    destruct pre as [|o0 pre0] eqn:Ep.
+    - unfold kept_of. rewrite (tuned_bench c Ht), Es. reflexivity.
+    - rewrite (kept_size_last c (o0 :: pre0) Ht Es) by discriminate. apply list_eqb_refl. }
   rewrite Hcnt. cbn [andb].
   (* allocation keys *)
   assert (Hkeys : map fst (st_allocs (store_of c pre)) = alloc_keys_from 0 (concat (kept_of c pre))).
@@ -334,4 +341,45 @@ Proof.
   rewrite Hss1, N.eqb_refl. cbn [andb].
   pose proof (iter_count_val (spec_state c init pre) _ Hsi Hm) as Hv. cbn [spec_state s_store s_size] in Hv.
   rewrite Hm' in Hv. rewrite Hv. apply N.eqb_refl.
+Qed.
+
+(** * C03 end to end: the figures the model reports satisfy [c03_e2e_sb] *)
+Theorem c03_e2e_model c init hist out s t sn :
+  c_test c = false -> zero_case c = false -> c_size c = Some s ->
+  (0 < t)%nat -> uniform_p t hist ->
+  let n := sample_count_of c in
+  let r := N.to_nat (ceil_div n (N.of_nat t)) in
+  (r <= length hist)%nat ->
+  (forall j, (j < r)%nat -> elapsed_after c init hist j < c_max c) ->
+  c_min c <= elapsed_after c init hist r ->
+  bench_loop c init hist = Ok out -> seen_of_outcome t out = Ok sn ->
+  N.of_nat (t * r) < 2 ^ 32 ->
+  c03_e2e_sb (c_count c) s (N.of_nat t) false (o_stat_samples sn) (o_stat_iters sn) (o_calls sn) = true.
+Proof.
+  intros Ht Hz Hs Htpos Hu n r Hr Hmax Hmin H Hsn Hb.
+  pose proof (exact_counts c init hist out s t Ht Hz Hs Htpos Hu Hr Hmax Hmin H) as He. cbv zeta in He.
+  assert (Hrdef : N.to_nat (ceil_div (sample_count_of c) (N.of_nat t)) = r) by reflexivity.
+  rewrite Hrdef in He. clearbody r. destruct He as [_ [_ [Hlen [_ [Hcalls Hsize]]]]].
+  destruct (seen_all t out sn Hsn) as [_ [_ [Hc [_ [_ [_ [_ [Hss Hsi]]]]]]]].
+  assert (Hm : N.of_nat (length (st_samples (s_store (out_state out)))) < 2 ^ 32) by (rewrite Hlen; exact Hb).
+  pose proof (iter_count_val (out_state out) _ Hsi Hm) as Hv.
+  unfold c03_e2e_sb. rewrite Hc, repeat_length, N.eqb_refl. cbn [andb].
+  assert (Hnn : match c_count c with Some x => x | None => 100 end = n) by reflexivity. rewrite Hnn.
+  assert (Hn0 : n <> 0).
+  { apply has_samples_count. unfold zero_case in Hz. destruct (has_samples c); [reflexivity|]. rewrite Bool.orb_true_r in Hz. discriminate. }
+  assert (Hs0 : s <> 0).
+  { unfold zero_case, has_samples, opt_is in Hz. rewrite Hs in Hz. destruct (s =? 0) eqn:E; [|apply N.eqb_neq; exact E].
+    cbn [negb] in Hz. rewrite Bool.andb_false_r in Hz. cbn [negb] in Hz. rewrite Bool.orb_true_r in Hz. discriminate. }
+  apply N.eqb_neq in Hn0. apply N.eqb_neq in Hs0. rewrite Hn0, Hs0. cbn [orb].
+  assert (Hr1 : (r <> 0)%nat).
+  { rewrite <- Hrdef. fold n. assert (0 < ceil_div n (N.of_nat t)); [|lia].
+    apply (ceil_div_lt n (N.of_nat t) 0); [lia|]. apply N.eqb_neq in Hn0. lia. }
+  assert (Hrr : ceil_div n (N.of_nat t) = N.of_nat r) by (rewrite <- Hrdef; fold n; rewrite N2Nat.id; reflexivity).
+  rewrite Hrr, Hss. unfold stat_sample_count. rewrite Hlen.
+  rewrite (N.mod_small _ _ Hb). rewrite Hv, Hlen, Hcalls.
+  destruct (r =? 0)%nat eqn:Er; [apply Nat.eqb_eq in Er; contradiction|]. rewrite Hsize.
+  rewrite all_eq_repeat.
+  assert (E1 : N.of_nat (t * r) =? N.of_nat t * N.of_nat r = true) by (apply N.eqb_eq; lia).
+  assert (E2 : N.of_nat (t * r) * s =? N.of_nat t * N.of_nat r * s = true) by (apply N.eqb_eq; lia).
+  rewrite E1, E2. reflexivity.
 Qed.
